@@ -83,7 +83,9 @@ Log(a) == /\ last' = a /\ prev' = abs /\ steps' = steps + 1
 \* "cutN": the bytes of the plain form reach the broker in two segments, cut after N bytes (from the end if N < 0):
 \* inside the fixed header, the protocol name, the client identifier, before the last byte
 ConnectForms == {"plain", "ka0", "nouser", "emptyuser", "emptypass", "userpass", "ka0-nouser", "ka0-emptyuser", "ka0-emptypass",
-                 "cut1", "cut3", "cut9", "cut13", "cut-1", "userpass-cut-3"}
+                 "cut1", "cut3", "cut9", "cut13", "cut-1", "userpass-cut-3",
+                 \* "rlN": with a password that makes the remaining length exactly N (length field bytes 0x7f / 0x80 0x01 / ...)
+                 "rl127", "rl128", "rl129", "rl256", "rl384", "rl16383", "rl16384"}
 AnonForms == {"anon", "anon-nouser", "anon-emptyuser", "anon-ka0-emptyuser"}
 ConnectF(c, k, clean, will, form) ==
   /\ form \in ConnectForms \cup AnonForms /\ (form \in AnonForms => clean)
